@@ -24,9 +24,11 @@ fn gen_cases(stream: &str, seed: u64, tier: &str) -> Vec<Case> {
     let mut r = Rng::new(h);
     match stream {
         "hungarian" => streams::gen_hungarian(&mut r, tier),
+        "hungarian-exhaustive" => streams::gen_hungarian_exhaustive(&mut r, tier),
         "node" => streams::gen_node(&mut r, tier, 1, false, "node"),
         "node-rooms" => streams::gen_node(&mut r, tier, 2, true, "node-rooms"),
         "node-norooms" => streams::gen_node(&mut r, tier, 0, false, "node-norooms"),
+        "node-exhaustive" => streams::gen_node_exhaustive(&mut r, tier),
         "solve" => streams::gen_solve(&mut r, tier, 1, "solve"),
         "solve-norooms" => streams::gen_solve(&mut r, tier, 0, "solve-norooms"),
         "solve-rooms" => streams::gen_solve(&mut r, tier, 2, "solve-rooms"),
@@ -45,8 +47,8 @@ fn gen_cases(stream: &str, seed: u64, tier: &str) -> Vec<Case> {
 
 fn run_case(stream: &str, data: &Value) -> Vec<common::Line> {
     match stream {
-        "hungarian" => streams::run_hungarian(data),
-        "node" | "node-rooms" | "node-norooms" => streams::run_node(data),
+        "hungarian" | "hungarian-exhaustive" => streams::run_hungarian(data),
+        "node" | "node-rooms" | "node-norooms" | "node-exhaustive" => streams::run_node(data),
         "solve" | "solve-norooms" | "solve-rooms" => streams::run_solve(data),
         "roompairs" => streams::run_roompairs(data),
         "engine" | "engine-fault" => streams::run_engine(data),
